@@ -582,6 +582,7 @@ def spaces(tier, seed):
                     for k in range(len(KEYS))]
     if tier == "quick":
         sec[2] = [c for c in sec[2] if c["img"] == ("mono" if c["form"] != "grids" else "rgb")]
+        ds[2] = [c for c in ds[2] if c["shape"] in ([3, 4], [1, 4])]  # pairs of edits: two of the four shapes
     return [
         {"name": "well-formed dataset pairs", "level": 0, "cases": ds[0], "chunk": 8},
         {"name": "well-formed input sections", "level": 0, "cases": sec[0], "chunk": 2},
